@@ -63,7 +63,7 @@ func (C14) Info() core.Info {
 	return core.Info{
 		Level: "fault_enumeration",
 		Rule: "one run = one seeded scenario (writer history + options) whose fault-free I/O trace is recorded, then re-executed once per enumerated single fault: " +
-			"sink: byte offset x {err, torn, err-after-full, short-noerr} x {sticky, one-shot}; trunc: strict prefix lengths; source: ReadAt call index x {err, short+err, short+EOF} x cut; copy: source faults while WriteRowGroup copies chunks. " +
+			"sink: byte offset x {err, torn, err-after-full, short-noerr} x {sticky, one-shot}; trunc: strict prefix lengths; source: ReadAt call index x {err, short+err, short+EOF} x cut, the file read through row groups, Reader, typed reader, pages, lazily read bloom filters of a multi row group view, or its row groups as the inputs of a sorted merge (every delivered row a written row not delivered before, a clean end delivers all); copy: source faults while WriteRowGroup copies chunks. " +
 			"quick samples positions (all call boundaries +-1 first), thorough enumerates every position of each sampled file. evaluations = executions; distinct non-trivial = distinct (scenario, fault case) pairs whose fault actually fired inside an operation",
 		Real:      []string{"parquet-go writer/reader/copy path (all real code from /repo)"},
 		Stubs:     []string{"destination io.Writer (SimSink, fault injecting)", "source io.ReaderAt (SimFile, fault injecting)", "page BufferPool (SimBufferPool, benign behaviours only)", "internal/memory.Pool (deterministic H1/H2)"},
